@@ -1,0 +1,53 @@
+//go:build verif
+
+package smf
+
+import "bytes"
+
+// Proof harnesses for C01 (write / read round trip), verified by govc like any other function: each one composes
+// the contract of the writer's event encoder (addMessage) with the contract of the reader's event decoder
+// (readEvent) over the same bytes and states that the event comes back unchanged. They are never called.
+
+// verifLemmaVlqSpan is a lemma call (empty body): the encoding of n found at d[p..] is one variable-length
+// quantity of vlqLen(n) bytes with value n. Its postcondition is an instance of lemma vlqSpanOfEnc.
+func verifLemmaVlqSpan(d []byte, p int, n uint32) {}
+
+//@ func verifLemmaVlqSpan
+//@ requires 0 <= p
+//@ uses vlqSpanOfEnc, vqAt.def
+//@ ensures vlqAt(d, p, n) ==> (vlqSpan(arr(d), p) == vlqLen(n) && vqAt(arr(d), p) == n && vlqEnd(arr(d), p, vlqLen(n)))
+
+// a reader positioned inside the only track of a file, with running status st, over the bytes b
+func verifReaderOver(b []byte, st byte) *reader {
+	rd := newReader(bytes.NewReader(b))
+	rd.headerIsRead = true
+	rd.numTracks = 1
+	rd.processedTracks = 0
+	if st != 0 {
+		rd.runningStatus.Read(st)
+	}
+	return rd
+}
+
+//@ func verifReaderOver
+//@ requires st == 0 || (st >= 0x80 && st <= 0xEF)
+//@ ensures fresh(result) && rdInv(result) && result.error == nil && result.processedTracks == 0 && result.SMF.numTracks == 1 && !result.isDone && !result.expectChunk
+//@ ensures result.input.sdata == arr(b) && result.input.sn == len(b) && result.input.spos == 0 && result.input.sfault == nil && result.input.sgreedy
+//@ ensures rrs(result) == st && fresh(asptr(result.runningStatus, runningstatus.smfreader)) && fresh(result.input) && fresh(result.SMF)
+
+// channel messages: status byte written or elided (running status), one or two data bytes
+func verifRoundTripChannel(w *writer, st byte, delta uint32, raw Message) (m Message, d uint32, err error) {
+	w.addMessage(delta, raw)
+	verifLemmaVlqSpan(w.currentChunk.data, 0, delta)
+	rd := verifReaderOver(w.currentChunk.data, st)
+	m, err = rd.readEvent()
+	d = rd.deltatime
+	return
+}
+
+//@ func verifRoundTripChannel
+//@ requires w != nil && writerInv(w) && len(w.currentChunk.data) == 0 && st == wrs(w) && (st == 0 || (st >= 0x80 && st <= 0xEF))
+//@ requires len(raw) >= 2 && raw[0] >= 0x80 && raw[0] <= 0xEF && len(raw) == (chNeed2(raw[0]) ? 3 : 2) && raw[1] < 0x80 && (len(raw) == 3 ==> raw[2] < 0x80)
+//@ modifies w.absPos, w.currentChunk, asptr(w.runningWriter, runningstatus.smfwriter).status
+//@ ensures [P:C01] err == nil && d == delta
+//@ ensures [P:C01] len(m) == len(raw) && m[0] == raw[0] && m[1] == raw[1] && (len(raw) == 3 ==> m[2] == raw[2])
